@@ -156,32 +156,32 @@ theorem if_lt_of_le {a b : Nat} (h : a ≤ b) {α : Type} (x y : α) : (if b < a
   rw [if_neg (by omega)]
 
 set_option maxHeartbeats 4000000 in
-theorem dec_shrink_all (utf8 : Bool) :
-    (∀ (f : Nat) (bs : Bytes) (d : Nat), ∀ v r, dec utf8 f bs d = .ok (v, r) → r.length < bs.length) ∧
-    (∀ kt (f : Nat) (bs : Bytes) (d : Nat), ∀ v r, decEntries2 utf8 kt f bs d = .ok (v, r) → r.length < bs.length) ∧
-    (∀ (f : Nat) (bs : Bytes) (d : Nat), ∀ v r, decElems2 utf8 f bs d = .ok (v, r) → r.length < bs.length) ∧
-    (∀ kt (f n : Nat) (bs : Bytes) (d : Nat), ∀ v r, decEntries1 utf8 kt f n bs d = .ok (v, r) → r.length ≤ bs.length) ∧
-    (∀ (f n : Nat) (bs : Bytes) (d : Nat), ∀ v r, decElems1 utf8 f n bs d = .ok (v, r) → r.length ≤ bs.length) := by
-  apply dec.mutual_induct utf8
-    (motive_1 := fun f bs d => ∀ v r, dec utf8 f bs d = .ok (v, r) → r.length < bs.length)
-    (motive_2 := fun kt f bs d => ∀ v r, decEntries2 utf8 kt f bs d = .ok (v, r) → r.length < bs.length)
-    (motive_3 := fun f bs d => ∀ v r, decElems2 utf8 f bs d = .ok (v, r) → r.length < bs.length)
-    (motive_4 := fun kt f n bs d => ∀ v r, decEntries1 utf8 kt f n bs d = .ok (v, r) → r.length ≤ bs.length)
-    (motive_5 := fun f n bs d => ∀ v r, decElems1 utf8 f n bs d = .ok (v, r) → r.length ≤ bs.length)
+theorem dec_shrink_all (cfg : DecCfg) :
+    (∀ (f : Nat) (bs : Bytes) (d : Nat), ∀ v r, dec cfg f bs d = .ok (v, r) → r.length < bs.length) ∧
+    (∀ kt (f : Nat) (bs : Bytes) (d : Nat), ∀ v r, decEntries2 cfg kt f bs d = .ok (v, r) → r.length < bs.length) ∧
+    (∀ (f : Nat) (bs : Bytes) (d : Nat), ∀ v r, decElems2 cfg f bs d = .ok (v, r) → r.length < bs.length) ∧
+    (∀ kt (f n : Nat) (bs : Bytes) (d : Nat), ∀ v r, decEntries1 cfg kt f n bs d = .ok (v, r) → r.length ≤ bs.length) ∧
+    (∀ (f n : Nat) (bs : Bytes) (d : Nat), ∀ v r, decElems1 cfg f n bs d = .ok (v, r) → r.length ≤ bs.length) := by
+  apply dec.mutual_induct cfg
+    (motive_1 := fun f bs d => ∀ v r, dec cfg f bs d = .ok (v, r) → r.length < bs.length)
+    (motive_2 := fun kt f bs d => ∀ v r, decEntries2 cfg kt f bs d = .ok (v, r) → r.length < bs.length)
+    (motive_3 := fun f bs d => ∀ v r, decElems2 cfg f bs d = .ok (v, r) → r.length < bs.length)
+    (motive_4 := fun kt f n bs d => ∀ v r, decEntries1 cfg kt f n bs d = .ok (v, r) → r.length ≤ bs.length)
+    (motive_5 := fun f n bs d => ∀ v r, decElems1 cfg f n bs d = .ok (v, r) → r.length ≤ bs.length)
   all_goals (intros; simp_all [dec, decElems1, decElems2, decEntries1, decEntries2, if_lt_of_le])
   all_goals (try (subst_vars; simp))
   all_goals (first | omega | grind [→ getVarint_shrink, → takeN_ok, → decInt_shrink, → decKey_shrink, → decKeys1_shrink, → decKeys2_shrink, → decChunks_shrink] | skip)
 
-theorem dec_shrink {utf8 : Bool} {f : Nat} {bs : Bytes} {d : Nat} {v : Value} {r : Bytes}
-    (h : dec utf8 f bs d = .ok (v, r)) : r.length < bs.length := (dec_shrink_all utf8).1 f bs d v r h
-theorem decEntries2_shrink {utf8 : Bool} {kt : KeyTy} {f : Nat} {bs : Bytes} {d : Nat} {v : List (Key × Value)} {r : Bytes}
-    (h : decEntries2 utf8 kt f bs d = .ok (v, r)) : r.length < bs.length := (dec_shrink_all utf8).2.1 kt f bs d v r h
-theorem decElems2_shrink {utf8 : Bool} {f : Nat} {bs : Bytes} {d : Nat} {v : List Value} {r : Bytes}
-    (h : decElems2 utf8 f bs d = .ok (v, r)) : r.length < bs.length := (dec_shrink_all utf8).2.2.1 f bs d v r h
-theorem decEntries1_shrink {utf8 : Bool} {kt : KeyTy} {f n : Nat} {bs : Bytes} {d : Nat} {v : List (Key × Value)} {r : Bytes}
-    (h : decEntries1 utf8 kt f n bs d = .ok (v, r)) : r.length ≤ bs.length := (dec_shrink_all utf8).2.2.2.1 kt f n bs d v r h
-theorem decElems1_shrink {utf8 : Bool} {f n : Nat} {bs : Bytes} {d : Nat} {v : List Value} {r : Bytes}
-    (h : decElems1 utf8 f n bs d = .ok (v, r)) : r.length ≤ bs.length := (dec_shrink_all utf8).2.2.2.2 f n bs d v r h
+theorem dec_shrink {cfg : DecCfg} {f : Nat} {bs : Bytes} {d : Nat} {v : Value} {r : Bytes}
+    (h : dec cfg f bs d = .ok (v, r)) : r.length < bs.length := (dec_shrink_all cfg).1 f bs d v r h
+theorem decEntries2_shrink {cfg : DecCfg} {kt : KeyTy} {f : Nat} {bs : Bytes} {d : Nat} {v : List (Key × Value)} {r : Bytes}
+    (h : decEntries2 cfg kt f bs d = .ok (v, r)) : r.length < bs.length := (dec_shrink_all cfg).2.1 kt f bs d v r h
+theorem decElems2_shrink {cfg : DecCfg} {f : Nat} {bs : Bytes} {d : Nat} {v : List Value} {r : Bytes}
+    (h : decElems2 cfg f bs d = .ok (v, r)) : r.length < bs.length := (dec_shrink_all cfg).2.2.1 f bs d v r h
+theorem decEntries1_shrink {cfg : DecCfg} {kt : KeyTy} {f n : Nat} {bs : Bytes} {d : Nat} {v : List (Key × Value)} {r : Bytes}
+    (h : decEntries1 cfg kt f n bs d = .ok (v, r)) : r.length ≤ bs.length := (dec_shrink_all cfg).2.2.2.1 kt f n bs d v r h
+theorem decElems1_shrink {cfg : DecCfg} {f n : Nat} {bs : Bytes} {d : Nat} {v : List Value} {r : Bytes}
+    (h : decElems1 cfg f n bs d = .ok (v, r)) : r.length ≤ bs.length := (dec_shrink_all cfg).2.2.2.2 f n bs d v r h
 
 theorem getVarint_err {N : Nat} {bs : Bytes} {e : DeErr} (h : getVarint N bs = .error e) : e = .eoi := by
   cases bs with
@@ -233,18 +233,18 @@ theorem decChunks_total (f : Nat) (bs : Bytes) :
 
 
 set_option maxHeartbeats 4000000 in
-theorem dec_total_all (utf8 : Bool) :
-    (∀ (f : Nat) (bs : Bytes) (d : Nat), 2 * bs.length + 1 ≤ f → dec utf8 f bs d ≠ .error .fuel) ∧
-    (∀ kt (f : Nat) (bs : Bytes) (d : Nat), 2 * bs.length + 2 ≤ f → decEntries2 utf8 kt f bs d ≠ .error .fuel) ∧
-    (∀ (f : Nat) (bs : Bytes) (d : Nat), 2 * bs.length + 2 ≤ f → decElems2 utf8 f bs d ≠ .error .fuel) ∧
-    (∀ kt (f n : Nat) (bs : Bytes) (d : Nat), 2 * bs.length + 2 ≤ f → decEntries1 utf8 kt f n bs d ≠ .error .fuel) ∧
-    (∀ (f n : Nat) (bs : Bytes) (d : Nat), 2 * bs.length + 2 ≤ f → decElems1 utf8 f n bs d ≠ .error .fuel) := by
-  apply dec.mutual_induct utf8
-    (motive_1 := fun f bs d => 2 * bs.length + 1 ≤ f → dec utf8 f bs d ≠ .error .fuel)
-    (motive_2 := fun kt f bs d => 2 * bs.length + 2 ≤ f → decEntries2 utf8 kt f bs d ≠ .error .fuel)
-    (motive_3 := fun f bs d => 2 * bs.length + 2 ≤ f → decElems2 utf8 f bs d ≠ .error .fuel)
-    (motive_4 := fun kt f n bs d => 2 * bs.length + 2 ≤ f → decEntries1 utf8 kt f n bs d ≠ .error .fuel)
-    (motive_5 := fun f n bs d => 2 * bs.length + 2 ≤ f → decElems1 utf8 f n bs d ≠ .error .fuel)
+theorem dec_total_all (cfg : DecCfg) :
+    (∀ (f : Nat) (bs : Bytes) (d : Nat), 2 * bs.length + 1 ≤ f → dec cfg f bs d ≠ .error .fuel) ∧
+    (∀ kt (f : Nat) (bs : Bytes) (d : Nat), 2 * bs.length + 2 ≤ f → decEntries2 cfg kt f bs d ≠ .error .fuel) ∧
+    (∀ (f : Nat) (bs : Bytes) (d : Nat), 2 * bs.length + 2 ≤ f → decElems2 cfg f bs d ≠ .error .fuel) ∧
+    (∀ kt (f n : Nat) (bs : Bytes) (d : Nat), 2 * bs.length + 2 ≤ f → decEntries1 cfg kt f n bs d ≠ .error .fuel) ∧
+    (∀ (f n : Nat) (bs : Bytes) (d : Nat), 2 * bs.length + 2 ≤ f → decElems1 cfg f n bs d ≠ .error .fuel) := by
+  apply dec.mutual_induct cfg
+    (motive_1 := fun f bs d => 2 * bs.length + 1 ≤ f → dec cfg f bs d ≠ .error .fuel)
+    (motive_2 := fun kt f bs d => 2 * bs.length + 2 ≤ f → decEntries2 cfg kt f bs d ≠ .error .fuel)
+    (motive_3 := fun f bs d => 2 * bs.length + 2 ≤ f → decElems2 cfg f bs d ≠ .error .fuel)
+    (motive_4 := fun kt f n bs d => 2 * bs.length + 2 ≤ f → decEntries1 cfg kt f n bs d ≠ .error .fuel)
+    (motive_5 := fun f n bs d => 2 * bs.length + 2 ≤ f → decElems1 cfg f n bs d ≠ .error .fuel)
   all_goals (intros; simp_all [dec, decElems1, decElems2, decEntries1, decEntries2, if_lt_of_le])
   all_goals (first | omega | grind [→ getVarint_shrink, → takeN_ok, → decInt_shrink, → decKey_shrink,
     → dec_shrink, → decElems1_shrink, → decElems2_shrink, → decEntries1_shrink, → decEntries2_shrink,
@@ -256,7 +256,7 @@ end Aldrin
 namespace Aldrin
 
 /-- `fuelFor bs` is enough: decoding never runs out of recursion budget. -/
-theorem dec_total (utf8 : Bool) (bs : Bytes) (d : Nat) : dec utf8 (fuelFor bs) bs d ≠ .error .fuel :=
-  (dec_total_all utf8).1 _ bs d (by unfold fuelFor; omega)
+theorem dec_total (cfg : DecCfg) (bs : Bytes) (d : Nat) : dec cfg (fuelFor bs) bs d ≠ .error .fuel :=
+  (dec_total_all cfg).1 _ bs d (by unfold fuelFor; omega)
 
 end Aldrin
